@@ -382,6 +382,17 @@ def run_c11(ctx: fw.Ctx) -> None:
                       "on either side of every binary operator")
     leaves = list(c11_trees_leaves())
     eval_exp_roundtrip(st_l, [(t, BRACKET_OPTS[(i + j) % 8]) for i, t in enumerate(leaves) for j in (range(2) if ctx.quick else range(8))])
+    st_e = ctx.stream("left and right operand structurally EQUAL (distinct objects): the side of an operand must not be found by comparing it with its sibling")
+    eq_cases = []
+    for p_ in BIN:
+        for ch in BIN:
+            mk = lambda: A.BinOp(TOK, ch, A.Name(TOK, "a"), A.Name(TOK, "b"))  # noqa: E731
+            eq_cases.append(A.BinOp(TOK, p_, mk(), mk()))
+        for u in UN:
+            eq_cases.append(A.BinOp(TOK, p_, A.UnOp(TOK, u, A.Name(TOK, "a")), A.UnOp(TOK, u, A.Name(TOK, "a"))))
+        eq_cases.append(A.BinOp(TOK, p_, A.Name(TOK, "a"), A.Name(TOK, "a")))
+    eval_exp_roundtrip(st_e, [(t, o) for t in eq_cases for o in BRACKET_OPTS])
+    st_e.exhaustive = True
     r = ctx.rng("random")
     st2 = ctx.stream("random trees up to 12 operators x option sets")
     cases = []
@@ -420,6 +431,8 @@ STAT_FORMS = [
     "function n.a.b:c(p, ...) return p end", "function g() end", "local function h(...) return ... end",
     "local p <const>, q <close> = 1, nil", "local r", "x = function() return 1 end", "x = {1, a = 2, [3] = 4; 5}",
     "x = a .. b .. 1", "x = -y ^ -2", "x = not (a == b)", "x = #t + 1", "x = 1 .. 2", "x = t[ [[k]] ]",
+    "x = a .. b .. c .. d .. e", "x = a ^ b ^ c ^ d ^ e", "x = a - b - c - d - e", "x = a .. b + c .. d * e .. f",
+    "local n = arg", "block = stmt", "do local indent end", "newline = arg.block",
     "x = 'a\\z --b' .. \"\\z--[[c]]d\"", "s = \"a\\z   --[[b]]c\" y = 1",
 ]
 RETURN_FORMS = ["return", "return 1", "return a, b", "return f(x)", "return ...", "return;", "return 1;"]
@@ -2248,6 +2261,7 @@ def run_c18(ctx: fw.Ctx) -> None:
     r = ctx.rng("c18")
     st_eq = ctx.stream("(program, re-laid-out copy): must be equal")
     st_ne = ctx.stream("(program, single-point mutation): equal iff structurally identical")
+    st_obs = ctx.stream("(program, re-laid-out copy) compared again after repr()/str() of one side and of both")
     for _ in range(ctx.n(300, 5000)):
         g = gen.ProgGen(r, gen.Cfg(max_depth=r.choice([1, 2, 3]), max_stats=3))
         toks = g.chunk()
@@ -2264,6 +2278,19 @@ def run_c18(ctx: fw.Ctx) -> None:
             raise fw.InfraError(f"re-laid-out copy has a different structure: {a_src!r} vs {b_src!r}")
         if not (a == b) or not (b == a):
             st_eq.fail("ASTs of the same program in a different layout compare unequal", case)
+        # observers must not change what == says: print one side, compare, print the other, compare
+        st_obs.record(case, key=a_src + "\0" + b_src)
+        try:
+            with quiet():
+                repr(a)
+            e1 = (a == b, b == a)
+            with quiet():
+                repr(b), str(b), str(a)
+            e2 = (a == b, b == a)
+            if e1 != (True, True) or e2 != (True, True):
+                st_obs.fail("== changes after one of the trees was printed with repr()/str()", dict(case, after_repr_of_a=e1, after_repr_of_both=e2))
+        except Exception as e:  # noqa: BLE001
+            st_obs.fail(f"repr()/== raised {type(e).__name__}: {e}"[:300], case)
         for mt in structural_mutations(r, toks):
             m_src = gen.render(mt, r, plain=True)
             sm, m = tparse(m_src)
@@ -2272,7 +2299,12 @@ def run_c18(ctx: fw.Ctx) -> None:
             same = struct_dump(m) == da
             mcase = {"kind": "pair", "a": a_src, "b": m_src, "structurally_equal": same}
             st_ne.record(mcase, key=a_src + "\0" + m_src, nontrivial=not same)
-            if (a == m) != same or (m == a) != same:
+            try:
+                wrong = (a == m) != same or (m == a) != same
+            except Exception as e:  # noqa: BLE001
+                st_ne.fail(f"== raised {type(e).__name__}: {e}"[:300], mcase)
+                continue
+            if wrong:
                 st_ne.fail("== disagrees with structural identity", mcase)
     # optional parts, arity, operators, literal digits
     pairs = [("local x", "local x = nil"), ("local x <const> = 1", "local x = 1"), ("local x <const> = 1", "local x <close> = 1"),
@@ -2442,7 +2474,10 @@ SITES_EXPR = ["local v{k} = {E}", "local a{k} <const>, b{k} = 1, {E}", "x{k} = {
               "if c then elseif d then elseif {E} then else end", "while {E} do break end", "repeat until {E}", "for i = {E}, 2 do end", "for i = 1, {E} do end",
               "for i = 1, 2, {E} do end", "for k, v in {E} do end", "for k in p, {E} do end", "z{k} = {E} .. 'x'", "z{k} = 1 .. {E}", "z{k} = -{E}",
               "z{k} = not {E}", "z{k} = ({E}).x", "z{k} = {E} and 1 or 2", "function g{k}() return {E} end", "function g{k}() return 1, {E} end",
-              "do local q = {E} end", "x{k} = {{ k = function() return {E} end }}", "while c do local q = {E} end"]
+              "do local q = {E} end", "x{k} = {{ k = function() return {E} end }}", "while c do local q = {E} end",
+              # lists of unequal length (a walker that pairs targets with values stops at the shorter one)
+              "x{k} = 1, {E}", "x{k} = 1, 2, {E}", "x{k}, y{k}[{E}] = f()", "x{k}, {E}.f = f()", "x{k}, y{k}, z{k} = {E}", "local a{k} = 1, {E}",
+              "local a{k}, b{k}, c{k} = {E}", "for a, b, c in {E} do end", "for k in p, q, {E} do end", "f{k}(1, 2, 3, {E})"]
 REQ_POSITIONS = SITES_STMT + SITES_EXPR
 
 
@@ -2845,6 +2880,24 @@ def run_c12(ctx: fw.Ctx) -> None:
                 elif res.token.line != line_no:
                     st_sys.fail("InvalidDependencyError does not designate the offending call", dict(case, token_line=res.token.line, expected_line=line_no))
     st_sys.exhaustive = True
+    st_ret = ctx.stream("a faulty require inside the return expression of a required file that consists of nothing but that return, required at statement and at expression level")
+    for fault in FAULTS:
+        for how in ["require('onlyret')", "do require 'onlyret' end", "if c then else require('onlyret') end", "local m = require('onlyret')", "f(require('onlyret'))"]:
+            for body in ["return {{ util = {F} }}", "return {F}", "return 1, f({F})", "-- c\nreturn function() return {F} end"]:
+                call = FAULTS[fault].replace("{EXISTING}", "m0")
+                text = body.replace("{F}", call).replace("{{", "{").replace("}}", "}")
+                files = {"main.lua": f"start()\n{how}\n", "onlyret.lua": text + "\n", "m0.lua": "in_m0()\n"}
+                dirs = ["onlydir"] if fault == "directory-only" else []
+                case = {"kind": "filetree", "files": files, "dirs": dirs, "main": "main.lua", "search": [""], "fault": fault}
+                st_ret.record(case, key=json.dumps(case, sort_keys=True))
+                status, res = resolve_tree(case)
+                if status == "ok":
+                    st_ret.fail("an uninlinable require call in a return expression was accepted silently", case)
+                elif status != "dep":
+                    st_ret.fail(f"uninlinable require raised {status}: {res!r} instead of InvalidDependencyError", case)
+                elif res.token.line != text.count("\n", 0, text.index(call)) + 1:
+                    st_ret.fail("InvalidDependencyError does not designate the offending call", dict(case, token_line=res.token.line))
+    st_ret.exhaustive = True
     st_rel = ctx.stream("a module that exists only next to the requiring file's *requirer* is not found (lookup starts at the file's own directory)")
     for variant in range(ctx.n(12, 120)):
         how = r.choice(["local m = require('lib.mod')", "f(require 'lib.mod')", "return require('lib.mod')", "require('lib.mod')",
